@@ -175,6 +175,9 @@ func (k *checker) frags(obs string, groups ...[]text.TextFragment) {
 	var miss, twice, foreign []string
 	for key, n := range k.r.keys {
 		switch {
+		case got[key] < n && strings.TrimSpace(key.t) == "":
+			// weaker reading of "each input fragment": a fragment without any
+			// visible character may be left out (never duplicated)
 		case got[key] < n:
 			miss = append(miss, fmt.Sprintf("%q@(%.2f,%.2f)x%d<%d", key.t, key.x, key.y, got[key], n))
 		case got[key] > n:
@@ -330,6 +333,7 @@ func (k *checker) checkColumns(pfx string, cl *layout.ColumnLayout) {
 	}
 	k.frags(pfx+".Columns+Spanning", groups...)
 	k.text(pfx+".GetText", cl.GetText())
+	k.frags(pfx+".GetFragmentsInReadingOrder", cl.GetFragmentsInReadingOrder())
 }
 
 func (k *checker) checkAnalysis(pfx string, an *layout.AnalysisResult) {
@@ -351,7 +355,7 @@ func (k *checker) checkAnalysis(pfx string, an *layout.AnalysisResult) {
 }
 
 // direct runs every detector on the fragments and returns the problems.
-func direct(frags []text.TextFragment, w, h float64, cf cfg) *checker {
+func direct(c *fw.Ctx, frags []text.TextFragment, w, h float64, cf cfg) *checker {
 	k := &checker{r: newRef(frags)}
 	// lines
 	ll := layout.NewLineDetectorWithConfig(cf.line).Detect(frags, w, h)
@@ -361,6 +365,10 @@ func direct(frags []text.TextFragment, w, h float64, cf cfg) *checker {
 	// columns
 	cl := layout.NewColumnDetectorWithConfig(cf.col).Detect(frags, w, h)
 	k.checkColumns("ColumnDetector", cl)
+	c.Seen("detected_columns", fmt.Sprint(cl.ColumnCount()))
+	if len(cl.SpanningFragments) > 0 {
+		c.Count("pages_with_spanning_group", 1)
+	}
 	// reading order
 	ro := layout.NewReadingOrderDetectorWithConfig(cf.ro).Detect(frags, w, h)
 	k.checkRO("ReadingOrder", ro)
@@ -376,7 +384,13 @@ func direct(frags []text.TextFragment, w, h float64, cf cfg) *checker {
 	k.frags("BlockLayout.GetAllFragments", bl.GetAllFragments())
 	// analyzer
 	an := layout.NewAnalyzerWithConfig(cf.an)
-	k.checkAnalysis("Analyzer.Analyze", an.Analyze(frags, w, h))
+	ar := an.Analyze(frags, w, h)
+	k.checkAnalysis("Analyzer.Analyze", ar)
+	for _, e := range ar.Elements {
+		c.Count("elements_"+e.Type.String(), 1)
+	}
+	c.Count("lines_detected", int64(len(ll.Lines)))
+	c.Count("blocks_detected", int64(len(bl.Blocks)))
 	qa := an.QuickAnalyze(frags, w, h)
 	k.text("Analyzer.QuickAnalyze.Elements", elemTexts(qa.Elements))
 	return k
@@ -497,14 +511,14 @@ func runDirect(c *fw.Ctx, id string, i int, base *pagegen.Page) {
 	frags := toFrags(p)
 	det := specDetail(p)
 	c.Guard("a/default", id, det, func() {
-		k := direct(frags, p.W, p.H, defaultCfg())
+		k := direct(c, frags, p.W, p.H, defaultCfg())
 		report(c, id, "a:default", p, k, nil)
 	})
 	if i%3 == 0 {
 		cf := variantCfg(c, i, p.Spec)
 		c.Seen("config", "variant")
 		c.Guard("a/variant", id, det, func() {
-			k := direct(frags, p.W, p.H, cf)
+			k := direct(c, frags, p.W, p.H, cf)
 			report(c, id, "a:variant", p, k, nil)
 		})
 	}
@@ -704,13 +718,14 @@ func Run(c *fw.Ctx) {
 	c.Rule("case = one generated page (feature vector + unique tokens) in one layer (a: detectors called directly, b: PDF through the public API); " +
 		"non-trivial iff the page has >= 20 fragments in >= 3 lines; distinct by hash of feature vector + fragment list")
 	c.Assume("white space = unicode.IsSpace; fragments are matched by (text, x, y), which the detectors copy verbatim",
+		"'each input fragment is assigned to exactly one line / column' is asserted for fragments with at least one visible character; a white-space-only fragment may be left out of lines and blocks but must never be assigned twice (weaker reading)",
 		"layer b reference = fragments reported by Fragments(); these are compared with the written strings modulo de-duplication of the same text at the same rounded position (positions of the same text closer than 1.5 units may or may not collapse)",
 		"list markers dropped by model.List (GetElements) and Markdown renderings are not plain-text renderings and are not observed")
 
 	dir := filepath.Join(c.Work, "c09")
 	os.MkdirAll(dir, 0o755)
 
-	n := c.N(1500, 40000)
+	n := c.N(1200, 20000)
 	c.Parallel(n, func(i int) {
 		id := fmt.Sprintf("pg:%d", i)
 		if !c.Want(id) {
